@@ -5,6 +5,7 @@ from graphql import (
     GraphQLEnumType,
     GraphQLInputObjectType,
     GraphQLInterfaceType,
+    GraphQLList,
     GraphQLNonNull,
     GraphQLObjectType,
     GraphQLScalarType,
@@ -99,6 +100,7 @@ class ArgumentGenerator:
                 is_required,
                 used_custom_scalar,
                 graphql_type=str(arg_value.type),
+                graphql_type_obj=arg_value.type,
             )
 
         method_arguments = self._assemble_method_arguments(
@@ -132,6 +134,7 @@ class ArgumentGenerator:
         is_required: bool,
         used_custom_scalar: Optional[str],
         graphql_type: Optional[str] = None,
+        graphql_type_obj: Optional[Any] = None,
     ) -> None:
         """Accumulates return arguments."""
         constant_value = f"{final_type.name}!" if is_required else final_type.name
@@ -139,7 +142,7 @@ class ArgumentGenerator:
             # keep list and non-null wrappers: "[ID!]!" must not be declared as "ID!"
             constant_value = graphql_type
         return_arg_dict_value = self._generate_return_arg_value(
-            name, used_custom_scalar
+            name, used_custom_scalar, graphql_type_obj
         )
 
         return_arguments_keys.append(generate_constant(arg_name))
@@ -150,9 +153,48 @@ class ArgumentGenerator:
             )
         )
 
+    def _generate_serialize_expr(
+        self, type_: Any, value: ast.expr, serialize_name: str, depth: int = 0
+    ) -> ast.expr:
+        """serialize() once per non-null occurrence: lists are serialized item by item.
+
+        None stays None (for the argument itself it means "not given").
+        """
+        nullable = True
+        if isinstance(type_, GraphQLNonNull):
+            nullable = False
+            type_ = type_.of_type
+        expr: ast.expr
+        if isinstance(type_, GraphQLList):
+            item = generate_name(f"_item{depth}")
+            expr = ast.ListComp(
+                elt=self._generate_serialize_expr(
+                    type_.of_type, item, serialize_name, depth + 1
+                ),
+                generators=[
+                    ast.comprehension(target=item, iter=value, ifs=[], is_async=0)
+                ],
+            )
+        else:
+            expr = generate_call(func=generate_name(serialize_name), args=[value])
+        if nullable or depth == 0:
+            return ast.IfExp(
+                test=ast.Compare(
+                    left=value,
+                    ops=[ast.IsNot()],
+                    comparators=[generate_constant(None)],
+                ),
+                body=expr,
+                orelse=generate_constant(None),
+            )
+        return expr
+
     def _generate_return_arg_value(
-        self, name: str, used_custom_scalar: Optional[str]
-    ) -> Union[ast.Call, ast.Name, ast.IfExp]:
+        self,
+        name: str,
+        used_custom_scalar: Optional[str],
+        graphql_type_obj: Optional[Any] = None,
+    ) -> Union[ast.Call, ast.Name, ast.IfExp, ast.expr]:
         """Generates the return argument value."""
         return_arg_dict_value: Union[ast.Call, ast.Name, ast.IfExp] = generate_name(
             name
@@ -161,6 +203,10 @@ class ArgumentGenerator:
         if used_custom_scalar:
             self._used_custom_scalars.append(used_custom_scalar)
             scalar_data = self.custom_scalars[used_custom_scalar]
+            if scalar_data.serialize_name and graphql_type_obj is not None:
+                return self._generate_serialize_expr(
+                    graphql_type_obj, generate_name(name), scalar_data.serialize_name
+                )
             if scalar_data.serialize_name:
                 # None means "argument not given": it must stay None to be cleared
                 return_arg_dict_value = ast.IfExp(
